@@ -56,6 +56,9 @@ func c03Stubs(r, s *big.Int, derOK bool, rest int) {
 		return vr.UFBool("ecdsa", digest, r.Bytes(), s.Bytes())
 	})
 	vr.Stub("crypto/ed25519.Verify", func(pub ed25519.PublicKey, msg, sig []byte) bool {
+		if len(pub) != ed25519.PublicKeySize {
+			panic("ed25519: bad public key length") // documented contract of ed25519.Verify
+		}
 		return vr.UFBool("ed25519", msg, sig)
 	})
 	vr.Stub("github.com/zmap/zcrypto/encoding/asn1.Unmarshal", func(b []byte, val interface{}) ([]byte, error) {
@@ -83,6 +86,7 @@ func VerifH_C03_check_signature_from_key() {
 	c03Stubs(rr, ss, derOK, rest)
 	algo := SignatureAlgorithm(int(int8(vr.U8("algo"))))
 	var key interface{}
+	edLen := 0
 	kind := vr.Pick(vr.Int("keytype", 0, 6))
 	switch kind {
 	case 0:
@@ -94,7 +98,9 @@ func VerifH_C03_check_signature_from_key() {
 	case 3:
 		key = &AugmentedECDSA{Pub: &ecdsa.PublicKey{}}
 	case 4:
-		key = ed25519.PublicKey{1}
+		// parsePublicKey accepts any Ed25519 subjectPublicKey of at most 32 bytes
+		edLen = []int{0, 31, 32}[vr.Pick(vr.Int("edKeyLen", 0, 2))]
+		key = ed25519.PublicKey(make([]byte, edLen))
 	case 5:
 		key = nil
 	case 6:
@@ -102,7 +108,9 @@ func VerifH_C03_check_signature_from_key() {
 	}
 	signed := vr.Bytes("signed", vr.Int("signedLen", 0, 2))
 	sig := vr.Bytes("sig", vr.Int("sigLen", 0, 2))
-	err := CheckSignatureFromKey(key, algo, signed, sig)
+	var err error
+	panicked := vr.MayPanic(func() { err = CheckSignatureFromKey(key, algo, signed, sig) })
+	vr.Assert(!panicked, "checking a signature against any parsed key does not panic")
 
 	// reference table
 	const (
@@ -164,7 +172,7 @@ func VerifH_C03_check_signature_from_key() {
 	case fam == famECDSA && kind == 3:
 		want = rsOK && vr.UFBool("ecdsa", digest, rr.Bytes(), ss.Bytes())
 	case fam == famEd && kind == 4:
-		want = vr.UFBool("ed25519", digest, sig)
+		want = edLen == ed25519.PublicKeySize && vr.UFBool("ed25519", digest, sig)
 	}
 	if fam != famNone && !want && err == nil {
 		// accepted although the reference refuses: is it an algorithm/key family mismatch?
